@@ -71,6 +71,8 @@ type FnRun struct {
 	actionVars    map[string]EV
 	monVars       map[string]EV
 	inlinedBlocks int
+	loggedAlias   map[string]bool // track aliases for which some call was logged during symbolic execution
+	staticAlias   map[string]bool // track aliases with a call site in the body (or its literals / small wrappers)
 	frameAllowed  map[string]*frameAllow
 	frameAll      bool
 	globalsChecked map[string]bool
